@@ -64,7 +64,7 @@ type simPart struct {
 type simPlan struct {
 	Hold      bool              `json:"hold"`      // wait for Release(n) before acting
 	Conn      string            `json:"conn"`      // "", drop_before, drop_after, silence_before, silence_after
-	Part      map[string]string `json:"part"`      // partition -> ok | retry | retryapp | fatal | missing
+	Part      map[string]string `json:"part"`      // partition -> ok | retry | retryapp | fatal | missing | code:<n> | codeapp:<n>
 	MoveAfter map[string]int32  `json:"moveAfter"` // partition -> new leader (after handling)
 	DelayMs   int               `json:"delayMs"`
 }
@@ -710,10 +710,15 @@ func (c *simCluster) handleProduce(b *simBroker, r *ProduceRequest, wire int) (e
 			}
 			c.rec.Ev("append", kv{"req": n, "part": int(bt.part), "base": int(base), "ids": ids, "bad": bad,
 				"pid": int(bt.pid), "epoch": int(bt.epoch), "seq": int(bt.seq)})
-			switch kind {
-			case "retryapp":
+			switch {
+			case kind == "retryapp":
 				resp.AddTopicPartition(simTopic, bt.part, ErrNotEnoughReplicasAfterAppend)
-			case "missing":
+			case strings.HasPrefix(kind, "codeapp:"):
+				// the batch IS appended and the broker still answers with this error code (request timed out after the
+				// append, not enough replicas after the append, ...)
+				cn, _ := strconv.Atoi(kind[8:])
+				resp.AddTopicPartition(simTopic, bt.part, KError(cn))
+			case kind == "missing":
 			default:
 				resp.AddTopicPartition(simTopic, bt.part, ErrNoError)
 				resp.Blocks[simTopic][bt.part].Offset = base
